@@ -1,6 +1,6 @@
 SPECIFICATION MCSpec
 CONSTANTS
-  R = 100
+  R = 80
   K = 7
   Mode = "small"
   Mutant = "none"
